@@ -1226,9 +1226,10 @@ impl FatVolume {
             };
         debug!("Next free cluster is {:?}", self.next_free_cluster);
         // Record that we've allocated a cluster
-        // The count comes from the info sector and may be stale; if it can't be
-        // decremented it was wrong, so stop trusting it.
-        self.free_clusters_count = self.free_clusters_count.and_then(|n| n.checked_sub(1));
+        // The count comes from the info sector and may be stale, so it must not
+        // be trusted to stay in range: wrap rather than overflow. A wrong
+        // count then simply stays wrong by the same amount.
+        self.free_clusters_count = self.free_clusters_count.map(|n| n.wrapping_sub(1));
         debug!("All done, returning {:?}", new_cluster);
         Ok(new_cluster)
     }
@@ -1270,14 +1271,14 @@ impl FatVolume {
                 Err(Error::EndOfFile) => {
                     self.update_fat(block_cache, next, ClusterId::EMPTY)?;
                     if let Some(ref mut number_free_cluster) = self.free_clusters_count {
-                        *number_free_cluster += 1;
+                        *number_free_cluster = number_free_cluster.wrapping_add(1);
                     };
                     break;
                 }
                 Err(e) => return Err(e),
             }
             if let Some(ref mut number_free_cluster) = self.free_clusters_count {
-                *number_free_cluster += 1;
+                *number_free_cluster = number_free_cluster.wrapping_add(1);
             };
         }
         Ok(())
@@ -1300,7 +1301,7 @@ impl FatVolume {
         self.truncate_cluster_chain(block_cache, cluster)?;
         self.update_fat(block_cache, cluster, ClusterId::EMPTY)?;
         if let Some(ref mut number_free_cluster) = self.free_clusters_count {
-            *number_free_cluster += 1;
+            *number_free_cluster = number_free_cluster.wrapping_add(1);
         };
         if let Some(ref mut next_free_cluster) = self.next_free_cluster {
             if next_free_cluster.0 > cluster.0 {
